@@ -223,6 +223,34 @@ def build(seq):
     return out
 
 
+def check_scratch_buffer(run, rng):
+    """tags built from a bytearray the caller goes on using (one scratch buffer for several tags): a tag says what it was given
+    when it was made, whatever happens to the buffer afterwards"""
+    buf = bytearray()
+    made = []
+    for k in range(rng.randrange(2, 6)):
+        del buf[:]
+        buf.extend(bytes(rng.getrandbits(8) for _ in range(rng.choice([0, 1, 2, 5, 6, 40, 253, 254, 300]))))
+        cls_ = rng.choice(["app", "ctx"])
+        num = rng.choice([2, 6, 0, 14, 15, 200]) if cls_ == "ctx" else rng.choice([2, 6, 7])
+        tag = ApplicationTag(num, buf) if cls_ == "app" else ContextTag(num, buf)
+        made.append((tag, cls_, num, bytes(buf)))
+    buf.extend(b"later")
+    run.case(("scratch", len(made), made[0][2], len(made[0][3])), sample=None)
+    run.count("scratch_buffer_lists")
+    tl = TagList([m[0] for m in made])
+    try:
+        pdu = PDUData()
+        tl.encode(pdu)
+        out = bytes(pdu.pduData)
+    except Exception as err:
+        run.violation("tags-from-a-reused-buffer-not-encodable/" + type(err).__name__, {"tags": [(c, n, len(d)) for t, c, n, d in made]})
+        return
+    want = R.tlv_encode([(R.APP if c == "app" else R.CTX, n, len(d), d) for t, c, n, d in made])
+    if out != want:
+        run.violation("tag-data-changed-with-the-callers-buffer", {"tags": [(c, n, len(d)) for t, c, n, d in made], "got": out[:40], "want": want[:40]})
+
+
 def check_nesting(run, seq):
     tags = build(seq)
     wit = {"sequence": ["%s%d" % (c, n) for c, n in seq]}
@@ -439,6 +467,8 @@ def main():
             seq = random_nesting(rng, 4)
             run.case(("nest", tuple(seq)))
             check_nesting(run, seq)
+    for _ in range((4000 if thorough else 400) // run.shard[1]):
+        check_scratch_buffer(run, rng)
     run.extra["budget_lines_observed"] = BUDGET.total
     run.exhaustive = True
     run.finish(require=("lists_decoded", "accepted", "rejected", "agreed_with_reference",
